@@ -17,15 +17,15 @@ CONSTANTS
   MaxTicks = 1
   MaxStarts = 3
   MaxVer = 3
-  MaxEnt = 2
+  MaxEnt = 3
   MaxPurges = 1
   MaxKills = 0
   MaxDrops = 0
   UnnamedPurge = FALSE
   ResumeRelooks = TRUE
   AgeAtDecision = TRUE
-  LoadAtomic = FALSE
-  PurgeFences = FALSE
+  LoadAtomic = TRUE
+  PurgeFences = TRUE
   Ghost = FALSE
 INVARIANTS
   TypeOK D_FetchingHasOwner D_OneOwner D_WaitersOnlyWhileFetching D_WaiterAccounted
